@@ -110,7 +110,8 @@ class P(Prop):
                 call(scratch.add_subcircuit, child, "pre", {i: self.rng.choice(sorted(scratch.inputs())) for i in sorted(child.inputs())})
                 before = c_to_json(child)
                 r = self.rng.random()
-                internal = [n for n in sorted(child.graph.nodes) if child.type(n) != "input" and not child.is_output(n)]
+                internal = [n for n in sorted(child.graph.nodes) if child.type(n) not in ("input", "bb_input", "bb_output")
+                            and not child.is_output(n)]
                 if r < 0.3 and internal:
                     child.set_output(self.rng.choice(internal))
                     hist = "child:set_output"
